@@ -35,7 +35,11 @@ CTYPES = {
     "int": ("s", 32, 4), "unsigned": ("u", 32, 4), "long": ("s", 64, 8), "unsigned long": ("u", 64, 8),
     "bool": ("b", 1, 1), "float": ("f", 32, 4), "double": ("f", 64, 8), "long double": ("f", 79, 16),
     "char": ("s", 8, 1), "size_t": ("u", 64, 8), "uintmax_t": ("u", 64, 8), "intmax_t": ("s", 64, 8),
+    "long long": ("s", 64, 8), "unsigned long long": ("u", 64, 8),
 }
+# integral types that are distinct C++ types of the same width as a fixed-width typedef on LP64 (int64_t is long): type-identity
+# dispatch (is_same with intmax_t etc.) can treat them differently from int64_t/uint64_t
+TWIN_INT_REPS = ["long long", "unsigned long long"]
 INT_REPS = ["int8_t", "uint8_t", "int16_t", "uint16_t", "int32_t", "uint32_t", "int64_t", "uint64_t"]
 FLOAT_REPS = ["float", "double", "long double"]
 ALL_REPS = INT_REPS + FLOAT_REPS
